@@ -471,24 +471,35 @@ def expander(fnode, only=None):
             for t in n.targets:
                 if isinstance(t, ast.Name):
                     counts[t.id] = counts.get(t.id, 0) + 1
+    # a local assigned once in every branch of an if / elif / else tree:
+    #   x = (c1 and A) or (not c1 and ((c2 and B) or (not c2 and C)))
+    def phi_of(ifst, nm):
+        """(expr, number of assignments consumed) or None"""
+        def branch(block):
+            vals = [st for st in block if isinstance(st, ast.Assign) and len(st.targets) == 1 and
+                    is_name(st.targets[0], nm)]
+            if len(vals) == 1:
+                if only is not None and not only(vals[0].value):
+                    return None
+                return vals[0].value, 1
+            if not vals and len(block) == 1 and isinstance(block[0], ast.If) and block[0].orelse:
+                return phi_of(block[0], nm)
+            return None
+        if not ifst.orelse:
+            return None
+        x, y = branch(ifst.body), branch(ifst.orelse)
+        if x is None or y is None:
+            return None
+        phi = ast.BoolOp(op=ast.Or(), values=[
+            ast.BoolOp(op=ast.And(), values=[ifst.test, x[0]]),
+            ast.BoolOp(op=ast.And(), values=[ast.UnaryOp(op=ast.Not(), operand=ifst.test), y[0]])])
+        return ast.fix_missing_locations(ast.copy_location(phi, ifst)), x[1] + y[1]
     for n in walk_no_defs(fnode):
         if isinstance(n, ast.If) and n.orelse:
-            def last_assign(block):
-                out = {}
-                for st in block:
-                    if isinstance(st, ast.Assign) and len(st.targets) == 1 and \
-                            isinstance(st.targets[0], ast.Name):
-                        out[st.targets[0].id] = st.value
-                return out
-            a, b = last_assign(n.body), last_assign(n.orelse)
-            for nm in set(a) & set(b):
-                if counts.get(nm) == 2 and nm not in env and (only is None or
-                                                              (only(a[nm]) and only(b[nm]))):
-                    phi = ast.BoolOp(op=ast.Or(), values=[
-                        ast.BoolOp(op=ast.And(), values=[n.test, a[nm]]),
-                        ast.BoolOp(op=ast.And(), values=[ast.UnaryOp(op=ast.Not(), operand=n.test),
-                                                         b[nm]])])
-                    env[nm] = ast.fix_missing_locations(ast.copy_location(phi, n))
+            for nm in [k for k, c in counts.items() if c >= 2 and k not in env]:
+                got = phi_of(n, nm)
+                if got is not None and got[1] == counts[nm]:
+                    env[nm] = got[0]
 
     def expand(e):
         import copy
@@ -503,6 +514,7 @@ def expander(fnode, only=None):
 
 def is_boolish(v):
     return isinstance(v, (ast.BoolOp, ast.Compare)) or \
+        (isinstance(v, ast.Constant) and isinstance(v.value, bool)) or \
         (isinstance(v, ast.UnaryOp) and isinstance(v.op, ast.Not))
 
 
